@@ -10,6 +10,7 @@
 //	rewriter rangeindex     for i, v := range xs {…}  ->  for i := 0; i < len(xs); i++ { v := xs[i]; … }   (slices the body does not assign)
 //	rewriter tailerr        if err != nil { return err }; return nil  ->  return err      (functions whose only result is the error)
 //	rewriter expanderr      return f(x)  ->  errX := f(x); if errX != nil { return errX }; return nil   (same functions)
+//	rewriter renamefuncs    every unexported function and method f becomes fHlp (not those that implement an interface method)
 //	rewriter earlyelse      if c { return … }; rest…  ->  unchanged order, but with an explicit else around nothing (no-op guard)
 package main
 
@@ -63,6 +64,8 @@ func main() {
 				n = delegate(pk, f)
 			case "rangeindex":
 				n = rangeIndex(pk, f)
+			case "renamefuncs":
+				n = renameFuncs(pkgs, pk, f)
 			case "tailerr":
 				n = tailErr(pk, f, false)
 			case "expanderr":
@@ -494,6 +497,57 @@ func tailErr(pk *packages.Package, f *ast.File, expand bool) int {
 				doBody(x.Body)
 			}
 		}
+		return true
+	})
+	return n
+}
+
+var ifaceMethodNames map[string]bool
+
+// renameFuncs renames the unexported functions and methods of the module.
+func renameFuncs(pkgs []*packages.Package, pk *packages.Package, f *ast.File) int {
+	if ifaceMethodNames == nil {
+		ifaceMethodNames = map[string]bool{}
+		for _, q := range pkgs {
+			for _, o := range q.TypesInfo.Defs {
+				tn, ok := o.(*types.TypeName)
+				if !ok {
+					continue
+				}
+				if it, ok := tn.Type().Underlying().(*types.Interface); ok {
+					for i := 0; i < it.NumMethods(); i++ {
+						ifaceMethodNames[it.Method(i).Name()] = true
+					}
+				}
+			}
+		}
+	}
+	n := 0
+	ast.Inspect(f, func(nd ast.Node) bool {
+		id, ok := nd.(*ast.Ident)
+		if !ok {
+			return true
+		}
+		o := pk.TypesInfo.Defs[id]
+		if o == nil {
+			o = pk.TypesInfo.Uses[id]
+		}
+		fn, ok := o.(*types.Func)
+		if !ok || fn.Pkg() == nil || fn.Exported() || fn.Name() == "init" || fn.Name() == "main" || fn.Name() == "_" {
+			return true
+		}
+		if !strings.HasPrefix(fn.Pkg().Path(), "github.com/thomasjungblut/go-sstables") {
+			return true
+		}
+		if ifaceMethodNames[fn.Name()] {
+			return true
+		}
+		// generated code keeps its names
+		if pos := pk.Fset.Position(fn.Pos()); strings.HasSuffix(pos.Filename, ".pb.go") || strings.Contains(pos.Filename, "kaitai/gokaitai") || strings.Contains(pos.Filename, "_examples") {
+			return true
+		}
+		id.Name = id.Name + "Hlp"
+		n++
 		return true
 	})
 	return n
